@@ -7,7 +7,7 @@ claimed = subprocess.run([os.path.join(V, "check"), "--list"], stdout=subprocess
 # id -> (category, level text, level note, technique, design ref)
 T = {
  "C12": ("exploration",
-         "Property testing (rapid) on real UDP sockets: (A) datagram boundary/addressing round trips for PacketConn and UDPPeer with raw senders and receivers; (B) bind forms and getter-versus-getsockopt/getsockname agreement after every setter; (C) model-based membership histories on the sandbox's multicast-capable interface with witness sockets keeping every group joined on the host, a membership model predicting delivery, and a unicast fence datagram deciding non-delivery without timeouts. Bounded search.",
+         "Property testing (rapid) on real UDP sockets: (A) datagram boundary/addressing round trips for PacketConn and UDPPeer with raw senders and receivers; (B) bind forms and getter-versus-getsockopt/getsockname agreement after every setter; (C) model-based membership histories on the sandbox's multicast-capable interface with witness sockets keeping every group joined on the host, a membership model predicting delivery, and a unicast fence datagram deciding non-delivery without timeouts. Bounded search. Membership histories are steered towards re-subscription (rejoin in the former mode, put the former source filter back).",
          "Trusts the kernel's loopback of local multicast on eth0, per-sender ordering on loopback, and the membership model of Linux source filters (operations that trigger the kernel's mode switch on an empty source list are not generated); known finding loop-getter-initial is probed and excluded.",
          "model-based and round-trip property-based testing over real UDP/multicast sockets (rapid)", "DESIGN.md §4 C12"),
  "C13": ("fault_enumeration",
@@ -15,7 +15,7 @@ T = {
          "Trusts /proc/self/fd, fstat inode identity and Go finalizers after forced double collection; websocket handshakes are explored with EMFILE at k=0 only (an in-process server competes for freed slots otherwise); GC points are sampled at operation boundaries.",
          "fault enumeration (EMFILE at the k-th allocation, protocol faults) + stateful property-based testing (rapid)", "DESIGN.md §4 C13"),
  "C17": ("exploration",
-         "Property testing (rapid state machine) over a real handshake, the real AsyncAdapter and a real TCP socket: generated positions of peer events (data, ping) and application calls (AsyncNextFrame/AsyncNextMessage, AsyncWrite/AsyncWriteFrame/AsyncFlush) relative to poll cycles, so that application writes overlap the read path's automatic control-reply flush; every user callback must run exactly once within a bounded number of PollOne calls, and the server-side byte stream must parse into the expected frames in order. Bounded search over schedules.",
+         "Property testing (rapid state machine) over a real handshake, the real AsyncAdapter and a real TCP socket: generated positions of peer events (data, ping) and application calls (AsyncNextFrame/AsyncNextMessage, AsyncWrite/AsyncWriteFrame/AsyncFlush) relative to poll cycles, so that application writes overlap the read path's automatic control-reply flush; every user callback must run exactly once within a bounded number of PollOne calls, and the server-side byte stream must parse into the expected frames in order. Bounded search over schedules. Plus a teardown test: a read and 1..3 writes in flight on a real connection, both directions in one poller event, CloseNextLayer called from the read callback or a write callback; every callback exactly once, none afterwards.",
          "Trusts the raw harness server and the independent parser; messages <= 2 KiB (the adapter writes through blocking net.Conn.Write); one read and up to three application writes outstanding; completion callbacks start further operations.",
          "stateful property-based testing over real sockets with harness-chosen poll cycles (rapid)", "DESIGN.md §4 C17"),
  "C18": ("exploration",
@@ -31,7 +31,7 @@ T = {
          "Trusts poll(2) on RawFd() as the readiness oracle and the harness's raw peers; one read and one write in flight per object; AsyncAdapter writes limited to what fits the socket buffer.",
          "stateful property-based testing with harness-controlled poll batches (rapid)", "DESIGN.md §4 C01"),
  "C02": ("exploration",
-         "Property testing (rapid) of stream pairs with position-dependent bytes in both directions: generated read/write sizes and peer chunk sizes force partial transfers and would-block in the middle of *All operations; every completion's bytes, counts and the peer's received stream are checked against the generator stream; one test lets a peer goroutine write tiny segments concurrently so that a ReadAll never meets would-block. Bounded search.",
+         "Property testing (rapid) of stream pairs with position-dependent bytes in both directions: generated read/write sizes and peer chunk sizes force partial transfers and would-block in the middle of *All operations; every completion's bytes, counts and the peer's received stream are checked against the generator stream; one test lets a peer goroutine write tiny segments concurrently so that a ReadAll never meets would-block. Bounded search. The ByteBuffer transfer test also commits deliveries in two parts across a reallocating Reserve.",
          "Trusts the position-dependent byte generator and the raw peer sockets; AsyncAdapter writes limited to what fits the socket buffer (net.Conn.Write blocks otherwise).",
          "round-trip property-based testing over real sockets (rapid)", "DESIGN.md §4 C02"),
  "C03": ("exploration",
@@ -67,7 +67,7 @@ T = {
          "Trusts the independent parser; the history test keeps one application write in flight, the burst test issues up to nine without waiting and releases transport completions one at a time; scripted transport is all-or-error like the real adapter; GOMAXPROCS=1 makes sync.Pool reuse deterministic.",
          "property-based testing with an independent parser as oracle (rapid)", "DESIGN.md §4 C16"),
  "C19": ("exploration",
-         "Round-trip / differential property testing (rapid) of CodecConn with the length-prefixed codec: every segmentation class of the read stream over a scripted transport, write path byte-exactness, hostile and over-limit headers, a real sonic.Dial<->sonic.Listen pair with small kernel buffers so both directions would-block mid-item, a raw peer that ends the stream right behind its last items (every item must be returned before EOF), plus a native fuzz target in the thorough tier. Bounded search.",
+         "Round-trip / differential property testing (rapid) of CodecConn with the length-prefixed codec: every segmentation class of the read stream over a scripted transport, write path byte-exactness, hostile and over-limit headers, a real sonic.Dial<->sonic.Listen pair with small kernel buffers so both directions would-block mid-item, a raw peer that ends the stream right behind its last items (every item must be returned before EOF), plus a native fuzz target in the thorough tier. Bounded search. Plus tail-while-parked: an AsyncReadNext parked in the poller (FIFO read end, socketpair adapter, TCP conn) when the peer writes its last items and closes before the next poll; every item before io.EOF.",
          "Trusts the 4-byte big-endian reference framing in the harness; declared lengths between 1 MiB and the 1 GiB limit are not generated (allocation cost).",
          "round-trip property-based testing + fuzzing (rapid, go fuzz)", "DESIGN.md §4 C19"),
  "C09": ("exploration",
